@@ -488,7 +488,7 @@ func c16History(c *vc.Ctx, idx int) {
 		}
 	}
 	if elections == 0 {
-		c.Inconclusive("no election happened")
+		c.Count("histories_without_an_election", 1) // judged over the whole run (checkconf.json: require_observed)
 	}
 	c.Sample(map[string]any{"genesis_members": n, "candidates": len(cands), "admitted": joins, "elections": elections, "accept_timeout": timeout.String(), "last_ops": lastN(opsLog, 5)})
 }
